@@ -22,6 +22,9 @@ pub struct InnerDesc {
     pub ignore: Option<u8>,
     /// on being handed `trigger` the actor sends (dst, value) - reverse traffic
     pub reply: Option<(u8, usize, u8)>,
+    /// the reply is produced without touching the actor's state (a stateless responder)
+    #[serde(default)]
+    pub stateless_reply: bool,
 }
 
 #[derive(Clone)]
@@ -49,6 +52,15 @@ impl Actor for Inner {
     fn on_msg(&self, _: Id, s: &mut Cow<InnerState>, src: Id, m: u8, o: &mut Out<Self>) {
         if self.0.ignore == Some(m) {
             return;
+        }
+        if self.0.stateless_reply {
+            if let Some((trigger, d, v)) = self.0.reply {
+                if trigger == m {
+                    // output without a state change
+                    o.send(Id::from(d), 100 + v);
+                    return;
+                }
+            }
         }
         let st = s.to_mut();
         st.log.push((src.into(), m));
@@ -104,10 +116,16 @@ impl SubCheck for Link {
         (2usize..=3)
             .prop_flat_map(move |n| {
                 let inner = (proptest::collection::vec((prop_oneof![3 => Just(0usize), 1 => 0..n], 0u8..3), 0..=3), proptest::option::weighted(0.2, 0u8..3), proptest::option::weighted(0.25, (0u8..3, 0..n, 3u8..5)))
-                    .prop_map(|(script, ignore, reply)| InnerDesc { script, ignore, reply });
+                    .prop_map(|(script, ignore, reply)| InnerDesc { script, ignore, reply, stateless_reply: false });
                 (proptest::collection::vec(inner, n), any::<bool>(), proptest::bool::weighted(0.15), any::<bool>(), 3usize..=max_bound)
             })
             .prop_map(|(mut actors, duplicating, ordered, lossy, bound)| {
+                // every second system: replies are produced by stateless responders
+                if bound % 2 == 0 {
+                    for a in actors.iter_mut() {
+                        a.stateless_reply = a.reply.is_some();
+                    }
+                }
                 // no self-addressed traffic (a link to oneself is not what the property is about)
                 for (i, a) in actors.iter_mut().enumerate() {
                     let n = 3;
@@ -143,6 +161,7 @@ impl SubCheck for Link {
         let mut overtaken_seen = 0u64;
         let mut reordering_possible = false;
         let mut handovers = 0usize;
+        let mut stateless_replies_seen = false;
         while let Some(st) = queue.pop_front() {
             cov.eval();
             // ---------------- oracle on this state ----------------
@@ -157,10 +176,12 @@ impl SubCheck for Link {
                     let sent: Vec<(u64, u8)> = emitted.iter().enumerate().filter(|(_, (d, _))| *d == r).map(|(k, (_, m))| (k as u64 + 1, *m)).collect();
                     let recv = &*st.actor_states[r];
                     let ignore = c.actors[r].ignore;
-                    let handed: Vec<u8> = recv.verif_wrapped_state().log.iter().filter(|(src, _)| *src == s).map(|(_, m)| *m).collect();
+                    let handed: Vec<u8> = recv.verif_wrapped_state().log.iter().filter(|(src, m)| *src == s && *m < 100).map(|(_, m)| *m).collect();
                     handovers = handovers.max(handed.len());
                     // what should be visible in the log: the sent sequence without ignored values
-                    let visible: Vec<(u64, u8)> = sent.iter().copied().filter(|(_, m)| Some(*m) != ignore).collect();
+                    // (a stateless responder does not log its trigger value either)
+                    let silent_trigger = if c.actors[r].stateless_reply { c.actors[r].reply.map(|x| x.0) } else { None };
+                    let visible: Vec<(u64, u8)> = sent.iter().copied().filter(|(_, m)| Some(*m) != ignore && Some(*m) != silent_trigger).collect();
                     let last_delivered = recv.verif_last_delivered_seqs().iter().find(|(src, _)| usize::from(*src) == s).map(|(_, q)| *q).unwrap_or(0);
                     // match `handed` as a subsequence of `visible`
                     let mut pos = 0usize;
@@ -220,6 +241,20 @@ impl SubCheck for Link {
                     }
                 }
             }
+            // stateless responders: each trigger is handed over at most once, so a peer can be
+            // handed at most as many replies as triggers were sent to the responder
+            for r in 0..n {
+                if let (true, Some((trigger, d, v))) = (c.actors[r].stateless_reply, c.actors[r].reply) {
+                    let triggers_sent: usize = (0..n).filter(|s| *s != r).map(|s| st.actor_states[s].verif_wrapped_state().emitted.iter().filter(|(dst, m)| *dst == r && *m == trigger).count()).sum();
+                    let replies_handed = st.actor_states[d].verif_wrapped_state().log.iter().filter(|(src, m)| *src == r && *m == 100 + v).count();
+                    if replies_handed > 0 {
+                        stateless_replies_seen = true;
+                    }
+                    if replies_handed > triggers_sent {
+                        fails.push(Fail::new("c16/stateless-responder-handed-the-same-message-twice", format!("actor {} answers value {} with a reply to {} without changing state; {} trigger(s) were sent to it but {} replies were handed to actor {}; state {:?}", r, trigger, d, triggers_sent, replies_handed, d, st)));
+                    }
+                }
+            }
             if fails.len() > 50 {
                 break;
             }
@@ -252,6 +287,7 @@ impl SubCheck for Link {
         cov.label_if(overtaken_seen > 0, "overtaking_observed");
         cov.label_if(c.actors.iter().any(|a| a.reply.is_some()), "reverse_traffic");
         cov.label_if(c.actors.iter().any(|a| a.ignore.is_some()), "ignoring_receiver");
+        cov.label_if(stateless_replies_seen, "stateless_reply_handed_over");
         cov.label_if(seen.len() >= cap, "capped");
         if handovers >= 2 {
             cov.nontrivial(c);
@@ -270,7 +306,7 @@ impl SubCheck for Link {
         Ok(())
     }
     fn mandatory(&self) -> Vec<&'static str> {
-        vec!["two_messages_in_one_unordered_flow", "duplicating", "duplicating_lossy", "nonduplicating", "nonduplicating_lossy", "drop", "retransmission_timeout", "reverse_traffic", "ignoring_receiver"]
+        vec!["two_messages_in_one_unordered_flow", "duplicating", "duplicating_lossy", "nonduplicating", "nonduplicating_lossy", "drop", "retransmission_timeout", "reverse_traffic", "ignoring_receiver", "stateless_reply_handed_over"]
     }
     fn workers(&self) -> usize {
         default_workers()
